@@ -167,16 +167,17 @@ FunctionKey::execute(
 
                     DOMServices::getNodeData(*theNodeSet.item(i), executionContext, ref);
 
-                    if (0 != ref.length())
-                    {
-                        getNodeSet(
-                            executionContext,
-                            context,
-                            keyname,
-                            ref,
-                            locator,
-                            *theNodeRefList.get());
-                    }
+                    // The string value may be empty: the nodes whose
+                    // key value is the empty string belong to the result,
+                    // as they do for key(name, '') or for a node-set of
+                    // one such node.
+                    getNodeSet(
+                        executionContext,
+                        context,
+                        keyname,
+                        ref,
+                        locator,
+                        *theNodeRefList.get());
 
                     ref.clear();
                 }
